@@ -289,7 +289,8 @@ TFrame ==
 SameFrame(a, b) ==
     /\ a.type = b.type /\ a.ch = b.ch
     /\ (a.type = "method" => a.m = b.m)
-    /\ (a.type = "header" /\ Has(a, "body_size") => a.body_size = b.body_size)
+    \* (sizes beyond 2^31 travel as strings; `bsz` is the size clamped to 2*10^9+1)
+    /\ (a.type = "header" /\ Has(a, "body_size") => a.body_size = (IF Has(b, "bsz") THEN b.bsz ELSE b.body_size))
     /\ (a.type = "body" /\ Has(a, "size") => a.size = b.size)
     /\ (Has(a, "code") => a.code = b.code)
     /\ (Has(a, "exchange") /\ Has(a, "routing_key") /\ Has(a, "mandatory") /\ Has(a, "immediate") =>
